@@ -950,7 +950,9 @@ Record ostep (role : role) (x : ctx) (o : op) (w : world) (fut : bytes) (rem : l
                    (role = Server -> closing_done (x_state x) = true -> is_cc res = true));
   os_fair_read : fairw w -> o = OpRead -> c_out (x_codec x) = [] -> x_state x <> Terminated ->
                  c_out (x_codec x') = [] /\ (j = 0%nat -> x_additional x' = None) /\
-                 (role = Server -> closing_done (x_state x) = true -> is_cc res = true) }.
+                 (role = Server -> closing_done (x_state x) = true -> is_cc res = true) /\
+                 (forall f, x_additional x = Some f ->
+                            exists f1 rest, nf = f1 :: rest /\ isclose f1 = isclose f) }.
 
 Section OpStep.
 Variables (role : role) (x : ctx) (w : world) (fut : bytes) (rem : list frame).
@@ -984,7 +986,8 @@ Lemma ostep_write_side o res x' w' nf o' s' a' u' :
    o' = [] /\ (c_out (x_codec x) = [] ->
                a' = None /\ (role = Server -> closing_done (x_state x) = true -> is_cc res = true))) ->
   (fairw w -> o = OpRead -> c_out (x_codec x) = [] -> x_state x <> Terminated ->
-   o' = [] /\ a' = None /\ (role = Server -> closing_done (x_state x) = true -> is_cc res = true)) ->
+   o' = [] /\ a' = None /\ (role = Server -> closing_done (x_state x) = true -> is_cc res = true) /\
+   (forall f, x_additional x = Some f -> exists f1 rest, nf = f1 :: rest /\ isclose f1 = isclose f)) ->
   ostep role x o w fut rem res x' w' nf 0.
 Proof.
   intros -> [Hlog [Hrds [Hwr Hfl]]] Hnf Ha Hcl Hd Hacc Hgc Hcc Hterm Hidle Hok Htk Hrd Hbl Hcnt Hff Hfr.
@@ -996,7 +999,7 @@ Proof.
   - intros Hc. destruct (Hcc Hc) as [A [B [C D]]]. splits; auto. intros E. rewrite E in D. discriminate D.
   - intros Hr. destruct (Hbl Hr) as [A [B C]]. split; [exact A|left; auto].
   - intros Ho. specialize (Hcnt Ho). lia.
-  - intros Hf Ho Hc Hnt. destruct (Hfr Hf Ho Hc Hnt) as [A [B C]]. splits; auto.
+  - intros Hf Ho Hc Hnt. destruct (Hfr Hf Ho Hc Hnt) as [A [B [C D]]]. splits; auto.
 Qed.
 
 End OpStep.
@@ -1261,13 +1264,18 @@ Proof.
   destruct EP as [o [a [u [nf [Hx0 [Hw [Hs [Hr Hwb]]]]]]]].
   assert (HF : fairw w -> c_out (x_codec x) = [] ->
             o = [] /\ a = None /\
-            (role = Server -> closing_done (x_state x) = true -> r0 = RErr EConnectionClosed)).
+            (role = Server -> closing_done (x_state x) = true -> r0 = RErr EConnectionClosed) /\
+            (forall f, x_additional x = Some f -> exists f1 rest, nf = f1 :: rest /\ isclose f1 = isclose f)).
   { intros Hf Hc. rewrite read_pre_pre_step in EP0.
     destruct (pre_step_acc u64_max x w (ei_max _ _ HEI) (ei_bound _ _ HEI) Hf) as [w2 [E2 _]].
     rewrite E2 in EP0. injection EP0 as Er Ex _.
     destruct (pre_pure_facts role x (next_key w) HEI Hc Hnt) as [F1 [F2 F3]].
     rewrite Ex, Hx0 in F1, F2. cbn [upd x_codec c_out set_out x_additional] in F1, F2.
-    splits; auto. intros E Hcd. rewrite <- Er. exact (F3 E Hcd). }
+    splits; auto.
+    - intros E Hcd. rewrite <- Er. exact (F3 E Hcd).
+    - intros f Hf0. rewrite Hf0, F2 in Hs.
+      destruct Hs as [[X _]|[g [g1 [Eg [[Hce _] [_ [[_ Hnf]|[X _]]]]]]]]; try discriminate X.
+      injection Eg as <-. exists g1, []. split; [exact Hnf|]. apply isclose_content. exact Hce. }
   destruct (slot_ok _ _ _ _ Hadd Hs) as [Ha Hctl].
   destruct (wres_cases _ _ _ _ _ _ Hr) as [Hr1 [Hr2 Hr3]].
   (* the pre-step ended the call *)
@@ -1302,7 +1310,7 @@ Proof.
     | |- OpRead = OpRead \/ _ -> _ => intros _; apply slot_count in Hs; exact Hs
     | |- fairw w -> OpRead = OpFlush -> _ => intros _ X; discriminate X
     | |- fairw w -> OpRead = OpRead -> _ =>
-        intros Hf _ Hc _; destruct (HF Hf Hc) as [A [B C]]; splits; auto;
+        intros Hf _ Hc _; destruct (HF Hf Hc) as [A [B [C D]]]; splits; auto;
         intros E Hcd; specialize (C E Hcd); injection C as ->; reflexivity
     end. }
   destruct r0 as [[]|e|p|]; try (intros H; symmetry in H; apply (Hexit _ eq_refl) in H; eauto; fail);
@@ -1366,7 +1374,7 @@ Proof.
       | |- OpRead = OpRead \/ _ -> _ => intros _; lia
       | |- fairw w -> OpRead = OpFlush -> _ => intros _ X; discriminate X
       | |- fairw w -> OpRead = OpRead -> _ =>
-          intros Hf _ Hc _; destruct (HF Hf Hc) as [A [B C]];
+          intros Hf _ Hc _; destruct (HF Hf Hc) as [A [B [C D]]];
           destruct Hws as [_ [_ [_ [_ [Hco _]]]]]; rewrite Hco, Hx0; cbn [upd x_codec c_out set_out];
           splits; auto; [intros X; discriminate X|intros E Hcd; specialize (C E Hcd); discriminate C]
       end.
@@ -1397,7 +1405,7 @@ Proof.
           intros _; rewrite Had, Hx0; cbn [upd x_additional]; apply slot_count in Hs; lia
       | |- fairw w -> OpRead = OpFlush -> _ => intros _ X; discriminate X
       | |- fairw w -> OpRead = OpRead -> _ =>
-          intros Hf _ Hc _; destruct (HF Hf Hc) as [A [B C]];
+          intros Hf _ Hc _; destruct (HF Hf Hc) as [A [B [C D]]];
           destruct Hws as [_ [_ [_ [_ [Hco _]]]]]; rewrite Hco, Had, Hx0;
           cbn [upd x_codec c_out set_out x_additional];
           splits; auto; intros E Hcd; specialize (C E Hcd); discriminate C
@@ -1429,7 +1437,7 @@ Proof.
           intros _; rewrite Had, Hx0; cbn [upd x_additional]; apply slot_count in Hs; lia
       | |- fairw w -> OpRead = OpFlush -> _ => intros _ X; discriminate X
       | |- fairw w -> OpRead = OpRead -> _ =>
-          intros Hf _ Hc _; destruct (HF Hf Hc) as [A [B C]];
+          intros Hf _ Hc _; destruct (HF Hf Hc) as [A [B [C D]]];
           destruct Hws as [_ [_ [_ [_ [Hco _]]]]]; rewrite Hco, Had, Hx0;
           cbn [upd x_codec c_out set_out x_additional];
           splits; auto; intros E Hcd; specialize (C E Hcd); discriminate C
